@@ -482,6 +482,7 @@ mod helpx {
                     _ => {
                         let mut v: MutBumpVecRev<$t, &mut Bump> = construct!(MutBumpVecRev, &mut bump);
                         ops_on!(v, poor);
+                        record(&v);
                         match fr.fin { 1 => { let b = v.into_boxed_slice(); drop(b); } 4 => { let mut it = v.into_iter(); for _ in 0..n { if it.next().is_none() { break; } } } _ => drop(v) }
                     }
                 }
@@ -501,7 +502,7 @@ mod helpx {
             notes.push(format!("helpers: elements of a collection lost {lost:?} / dropped twice {twice:?} ({} born, {} drops; {desc})", born.len(), dropped.len()));
         }
         // C08 over sequences: the same history on std::vec::Vec (forward vectors, sized elements, no panic)
-        if fr.sized && kind <= 2 && res.is_ok() {
+        if fr.sized && res.is_ok() {
             let got = FINAL.with(|f| f.borrow_mut().take());
             match (got, shadow_run(fr, kind, fuse, ops)) {
                 (Some(g), Some(w)) => { if g != w { notes.push(format!("helpers: contents differ from std::vec::Vec after a history: {g:?} vs {w:?} ({desc})")); } }
@@ -516,6 +517,7 @@ mod helpx {
     fn shadow_run(fr: &Frame, kind: u8, fuse: i64, ops: &[ZsOp]) -> Option<Vec<u32>> {
         FUSE.with(|f| f.set(fuse)); VAL.with(|v| v.set(0));
         let n = fr.carg;
+        if kind == 3 { return shadow_rev(fr, fuse, ops); }
         let r = catch_unwind(AssertUnwindSafe(|| -> Vec<u32> {
             let mut v: Vec<H> = if kind == 1 {
                 match fr.ctor { 1 | 2 => (0..n).map(|_| { tick(); H::new() }).collect(), _ => Vec::new() }
@@ -561,6 +563,46 @@ mod helpx {
                 }
             }
             v.iter().map(|e| e.1).collect()
+        }));
+        FUSE.with(|f| f.set(-1));
+        r.ok()
+    }
+
+    /// MutBumpVecRev: every operation acts at the front, i.e. the vector is a std Vec read backwards
+    fn shadow_rev(fr: &Frame, fuse: i64, ops: &[ZsOp]) -> Option<Vec<u32>> {
+        FUSE.with(|f| f.set(fuse)); VAL.with(|v| v.set(0));
+        let n = fr.carg;
+        let r = catch_unwind(AssertUnwindSafe(|| -> Vec<u32> {
+            let mut v: Vec<H> = match fr.ctor {
+                0 => vec![H::new(); n],
+                1 | 2 => (0..n).map(|_| { tick(); H::new() }).collect(),
+                3 => { let mut s: Vec<H> = (0..n).map(|_| H::new()).collect(); s.reverse(); s }
+                4 => { let a = H::new(); let b = H::new(); vec![b, a] }
+                _ => Vec::new(),
+            };
+            for op in ops.iter() {
+                let len = v.len();
+                match *op {
+                    ZsOp::Push => v.push(H::new()),
+                    ZsOp::PushWith => { tick(); v.push(H::new()); }
+                    ZsOp::PopIf(m) => { let _ = v.pop_if(|_| { tick(); m % 2 == 0 }); }
+                    ZsOp::InsertMut(i) | ZsOp::Insert(i) => { let i = i.min(len); v.insert(len - i, H::new()); }
+                    ZsOp::Resize(k) => v.resize(k, H::new()),
+                    ZsOp::ResizeWith(k) => v.resize_with(k, || { tick(); H::new() }),
+                    ZsOp::ExtendClone(k) => { let src: Vec<H> = (0..k).map(|_| H::new()).collect(); v.extend(src.iter().rev().cloned()); }
+                    ZsOp::WithinClone(k) => { let m = k.min(len); v.extend_from_within(len - m..len); }
+                    ZsOp::Truncate(k) => v.truncate(k),
+                    ZsOp::Pop => { v.pop(); }
+                    ZsOp::Remove(i) => { if i < len { v.remove(len - 1 - i); } }
+                    ZsOp::SwapRemove(i) => { if i < len { v.swap_remove(len - 1 - i); } }
+                    ZsOp::Clear => v.clear(),
+                    ZsOp::AppendVec(k) => { let src: Vec<H> = (0..k).map(|_| H::new()).collect(); v.extend(src.into_iter().rev()); }
+                    ZsOp::AppendDrain(k) => { let mut src: Vec<H> = (0..k + 2).map(|_| H::new()).collect(); let d: Vec<H> = src.drain(1..k + 1).collect(); v.extend(d.into_iter().rev()); }
+                    ZsOp::AppendArray => { let (a, b, c) = (H::new(), H::new(), H::new()); v.extend([c, b, a]); }
+                    _ => {}
+                }
+            }
+            v.iter().rev().map(|e| e.1).collect()
         }));
         FUSE.with(|f| f.set(-1));
         r.ok()
